@@ -153,7 +153,13 @@ Load(ok, S) ==
 ApplyOp(S, o) ==
     CASE o.op = "set"    -> [S EXCEPT !.d[o.k] = [has |-> TRUE, v |-> o.v, x |-> S.d[o.k].x]]
       [] o.op = "erase"  -> [S EXCEPT !.d[o.k] = NoVal]
-      [] o.op = "clear"  -> [S EXCEPT !.d = [k \in Keys |-> NoVal], !.mt = FALSE, !.mh = FALSE, !.ms = FALSE]
+      \* clear() drops every key and every explicit setting.  Whether age()/expiration()/on_server() go back to the
+      \* defaults at once (o.v = 1) or keep showing the old settings until the request ends (o.v = 0) is left open:
+      \* either way what they show is what the request leaves.
+      [] o.op = "clear"  -> IF o.v = 1
+                            THEN [S EXCEPT !.d = [k \in Keys |-> NoVal], !.mt = FALSE, !.mh = FALSE, !.ms = FALSE,
+                                           !.age = conf.age0, !.how = conf.how0, !.srv = FALSE]
+                            ELSE [S EXCEPT !.d = [k \in Keys |-> NoVal], !.mt = FALSE, !.mh = FALSE, !.ms = FALSE]
       [] o.op = "expose" -> [S EXCEPT !.d[o.k] = [has |-> TRUE, v |-> S.d[o.k].v, x |-> TRUE]]
       [] o.op = "hide"   -> [S EXCEPT !.d[o.k] = [has |-> TRUE, v |-> S.d[o.k].v, x |-> FALSE]]
       [] o.op = "age"    -> [S EXCEPT !.age = o.t, !.mt = TRUE]
@@ -242,7 +248,7 @@ Save(ck2, dl2, xc2) == cur.ph = "ops" /\ SaveG(ck2, dl2, xc2, {}) /\ cur' = Idle
 OpAlphabet ==
        (IF "set"    \in OpKinds THEN { [op |-> "set", k |-> k, v |-> v, t |-> 0, h |-> 0, s |-> FALSE] : k \in Keys, v \in Vals } ELSE {})
   \cup (IF "erase"  \in OpKinds THEN { [op |-> "erase", k |-> k, v |-> 0, t |-> 0, h |-> 0, s |-> FALSE] : k \in Keys } ELSE {})
-  \cup (IF "clear"  \in OpKinds THEN { [op |-> "clear", k |-> "", v |-> 0, t |-> 0, h |-> 0, s |-> FALSE] } ELSE {})
+  \cup (IF "clear"  \in OpKinds THEN { [op |-> "clear", k |-> "", v |-> v, t |-> 0, h |-> 0, s |-> FALSE] : v \in {0, 1} } ELSE {})
   \cup (IF "expose" \in OpKinds THEN { [op |-> "expose", k |-> k, v |-> 0, t |-> 0, h |-> 0, s |-> FALSE] : k \in Keys } ELSE {})
   \cup (IF "hide"   \in OpKinds THEN { [op |-> "hide", k |-> k, v |-> 0, t |-> 0, h |-> 0, s |-> FALSE] : k \in Keys } ELSE {})
   \cup (IF "age"    \in OpKinds THEN { [op |-> "age", k |-> "", v |-> 0, t |-> t, h |-> 0, s |-> FALSE] : t \in Ages } ELSE {})
